@@ -137,7 +137,7 @@ func genPayload(t *rapid.T, signal string, shapes []string) []byte {
 		o = pgen.Wide()
 	}
 	if shape == "items" {
-		if rapid.IntRange(0, 3).Draw(t, "minlist") > 0 {
+		if rapid.IntRange(0, 7).Draw(t, "minlist") > 0 {
 			o.MinList = 1
 		}
 	}
@@ -147,6 +147,10 @@ func genPayload(t *rapid.T, signal string, shapes []string) []byte {
 	}
 	return sig.Encode(v)
 }
+
+// 12/14 normal payloads, 1/14 containers without items, 1/14 nothing at all
+// (normal payloads turn out item-less now and then by themselves).
+var hopShapes = []string{"items", "items", "items", "items", "items", "items", "items", "items", "items", "items", "items", "items", "stripped", "empty"}
 
 func genHop(t *rapid.T) HopScript {
 	s := HopScript{
@@ -160,7 +164,7 @@ func genHop(t *rapid.T) HopScript {
 		s.Cred = rapid.SampledFrom([]string{"good", "good", "good", "good", "bad", "none"}).Draw(t, "cred")
 	}
 	s.Outcome = genOutcome(t)
-	s.Payload = genPayload(t, s.Signal, []string{"items", "items", "items", "items", "items", "items", "items", "items", "stripped", "empty"})
+	s.Payload = genPayload(t, s.Signal, hopShapes)
 	return s
 }
 
@@ -324,13 +328,12 @@ func isHTTP(transport string) bool { return transport != trGRPC }
 func runHop(s HopScript) (nontrivial bool, key string, f *vt.Finding) {
 	key = scriptKey(s.Signal, s.Transport, s.Compression, s.Auth, s.Cred, s.Outcome, s.Payload)
 	cHop.HangGuard(180*time.Second, s, "hang/hop", func() {
-		nontrivial, f = runHopInner(&s)
+		nontrivial, f = runHopInner(cHop, &s)
 	})
 	return nontrivial, key, f
 }
 
-func runHopInner(s *HopScript) (bool, *vt.Finding) {
-	c := cHop
+func runHopInner(c *vt.C, s *HopScript) (bool, *vt.Finding) {
 	v0, err := sig.Decode(s.Signal, s.Payload)
 	if err != nil {
 		return false, vt.Failf("harness/payload", "script payload does not decode: %v", err)
@@ -450,7 +453,7 @@ func runHopInner(s *HopScript) (bool, *vt.Finding) {
 		if f := comparePayload(c, s, "raw leg", s.Signal, s.Transport, sent, trees2[0]); f != nil {
 			return true, f
 		}
-		if f := checkWire(s.Transport, o, w); f != nil {
+		if f := checkWire(c, s.Transport, o, w); f != nil {
 			return true, f
 		}
 	}
@@ -468,8 +471,10 @@ func runHopInner(s *HopScript) (bool, *vt.Finding) {
 		if !consumererror.IsPermanent(sendErr) {
 			return true, vt.Failf("sender/"+tk+"/unauthenticated-not-permanent", "%s: exporter classifies the unauthenticated answer as retryable: %v", s.Transport, sendErr)
 		}
-		if st, ok := status.FromError(sendErr); !ok || st.Code() != codes.Unauthenticated {
-			return true, vt.Failf("sender/"+tk+"/unauthenticated-code", "%s: exporter error does not carry Unauthenticated: %v", s.Transport, sendErr)
+		if tk == "grpc" { // over HTTP the status lives in the HTTP response only; how the exporter words its error is its own business
+			if st, ok := status.FromError(sendErr); !ok || st.Code() != codes.Unauthenticated {
+				return true, vt.Failf("sender/grpc/unauthenticated-code", "%s: exporter error does not carry Unauthenticated: %v", s.Transport, sendErr)
+			}
 		}
 	case items == 0:
 		if calls != 0 {
@@ -485,7 +490,7 @@ func runHopInner(s *HopScript) (bool, *vt.Finding) {
 		if f := comparePayload(c, s, "exporter leg", s.Signal, s.Transport, sent, trees[0]); f != nil {
 			return true, f
 		}
-		if f := checkSender(s, tk, sendErr); f != nil {
+		if f := checkSender(c, s, tk, sendErr); f != nil {
 			return true, f
 		}
 	}
@@ -509,7 +514,7 @@ func orNone(s string) string {
 }
 
 // checkWire: what the receiver put on the wire for a consumer outcome.
-func checkWire(transport string, o Outcome, w wireStatus) *vt.Finding {
+func checkWire(c *vt.C, transport string, o Outcome, w wireStatus) *vt.Finding {
 	code, explicit := o.explicit()
 	if transport == trGRPC {
 		got := codes.Code(w.Code)
@@ -571,13 +576,17 @@ func checkWire(transport string, o Outcome, w wireStatus) *vt.Finding {
 	}
 	if w.LooseJSON {
 		// outside the statement: details are rendered {"typeUrl","value"} instead of proto3-JSON Any
-		cHop.Class("observation:http-json-status-details-not-proto3-json")
+		c.Class("observation:http-json-status-details-not-proto3-json")
 	}
 	if explicit && codes.Code(w.Code) != code {
 		return vt.Failf("wire/http-body-code/"+transport, "consumer returned %s, Status message in the HTTP %d body carries %s", o, w.HTTP, codes.Code(w.Code))
 	}
 	// Retry-After
 	if want := o.httpThrottle(); explicit && o.Retry && httpCarriesRetryAfter(w.HTTP) {
+		if o.delay() != want {
+			// accepted (Retry-After is whole seconds); counted so that the evidence shows it
+			c.Class("observation:http-retry-after-drops-subsecond-part")
+		}
 		if len(w.RetryAfter) != 1 {
 			return vt.Failf("wire/http-retry-after/missing", "consumer returned %s, HTTP %d carries Retry-After %v", o, w.HTTP, w.RetryAfter)
 		}
@@ -598,7 +607,7 @@ func checkWire(transport string, o Outcome, w wireStatus) *vt.Finding {
 }
 
 // checkSender: what the exporter concluded (consumer was reached, items > 0).
-func checkSender(s *HopScript, tk string, sendErr error) *vt.Finding {
+func checkSender(c *vt.C, s *HopScript, tk string, sendErr error) *vt.Finding {
 	o := s.Outcome
 	if o.Kind == "nil" {
 		if sendErr != nil {
@@ -627,7 +636,7 @@ func checkSender(s *HopScript, tk string, sendErr error) *vt.Finding {
 			}
 		}
 	}
-	return probeSender(cHop, tk, o.String(), sendErr, wantPerm, throttle)
+	return probeSender(c, tk, o.String(), sendErr, wantPerm, throttle)
 }
 
 // probeSender replays the exporter's error under the real retry sender.
@@ -663,5 +672,5 @@ func probeSender(c *vt.C, tk, what string, sendErr error, wantPerm bool, throttl
 
 func TestHop(t *testing.T) {
 	E = newEnv(t)
-	vt.Run(t, cHop, vt.N(10000, 600000), genHop, runHop)
+	vt.Run(t, cHop, vt.N(10000, 400000), genHop, runHop)
 }
